@@ -109,6 +109,13 @@ func runVCCase(wt *watch, c *VCCase, idx int) Event {
 	cons := vcCons(c.Cons)
 	s.Attributes["v"].Constraint = cons
 	s.Blocks["b"].Body.Attributes["v"].Constraint = cons
+	s.Blocks["c"] = &schema.BlockSchema{
+		Labels:  []*schema.LabelSchema{{Name: "name"}},
+		Address: &schema.BlockAddrSchema{Steps: schema.Address{schema.StaticStep{Name: "c"}, schema.LabelStep{Index: 0}}, ScopeId: "cblk", AsReference: true, BodyAsData: true, InferBody: true, BodySelfRef: true},
+		Body: &schema.BodySchema{Extensions: &schema.BodyExtensions{SelfRefs: true}, Attributes: map[string]*schema.AttributeSchema{
+			"tags": {IsOptional: true, Constraint: schema.AnyExpression{OfType: cty.List(cty.String)}},
+			"v":    {IsOptional: true, Constraint: cons}}},
+	}
 	var sb strings.Builder
 	edited := ""
 	if c.Place.InLoc {
@@ -118,9 +125,12 @@ func runVCCase(wt *watch, c *VCCase, idx int) Event {
 		edited = "loc.x"
 	} else {
 		sb.WriteString(locDecl)
-		if c.Place.Level >= 1 {
+		if c.Place.Level == 1 {
 			sb.WriteString(bDecl)
 			sb.WriteString("  ")
+		}
+		if c.Place.Level == 2 {
+			sb.WriteString("c \"one\" {\n  tags = [\"t1\", \"t2\"]\n}\nc \"two\" {\n  ")
 		}
 		sb.WriteString("v = ")
 	}
